@@ -95,6 +95,8 @@ type Deviation struct {
 	// TargetMod is the full name (name or name@revision) of the module whose tree holds the target.
 	TargetMod string `json:"target_mod"`
 	Missing   bool   `json:"missing,omitempty"`
+	// Sub: the deviation is written in a submodule (submodules take their turn after all modules).
+	Sub bool `json:"sub,omitempty"`
 	// Implicit: the target is an rpc input / output that the base does not write (the path lookup
 	// creates it).
 	Implicit bool      `json:"implicit,omitempty"`
@@ -116,6 +118,42 @@ type C08Case struct {
 	BadType bool `json:"bad_type,omitempty"`
 	// Combo describes the enumerated combination (exhaustive part) for the coverage count.
 	Combo string `json:"combo,omitempty"`
+	// WithBaseTexts, when set, are the texts of the base files in the run WITH the deviations (same
+	// names as BaseNames): deviations written inside a submodule of the base itself.
+	WithBaseTexts []string `json:"with_base_texts,omitempty"`
+	// Malformed: a deviate substatement has a value its keyword does not admit (config "", min-elements "");
+	// the conversion of the deviating module must report it.
+	Malformed bool `json:"malformed,omitempty"`
+}
+
+// Nodes renders the deviation as statements (for deviations placed into a generated (sub)module).
+func (d Deviation) Node() *Node {
+	n := &Node{Kw: "deviation", Arg: d.Arg}
+	for _, s := range d.Stmts {
+		dv := n.add("deviate", s.Kind)
+		if s.Units != "-" {
+			dv.add("units", s.Units)
+		}
+		if s.Def != nil {
+			dv.add("default", *s.Def)
+		}
+		if s.Cfg != "unset" {
+			dv.add("config", s.Cfg)
+		}
+		if s.Max != "-" {
+			dv.add("max-elements", s.Max)
+		}
+		if s.Mand != "unset" {
+			dv.add("mandatory", s.Mand)
+		}
+		if s.Type != "-" {
+			dv.add("type", s.Type)
+		}
+		if s.Min != "-" {
+			dv.add("min-elements", s.Min)
+		}
+	}
+	return n
 }
 
 // devModuleText renders a deviating module that imports the given (module, prefix) pairs.
@@ -477,6 +515,152 @@ func C08Exhaustive() []C08Case {
 		}
 	}
 	out = append(out, c08TypedefCases()...)
+	out = append(out, c08EmptyStringCases()...)
+	out = append(out, c08SubmoduleCases()...)
+	return out
+}
+
+// c08EmptyStringCases: the empty string is a value like any other for `default` (as the argument
+// of the deviate substatement and as the target's own default); an empty `units` argument is the
+// same as no units substatement; an empty config / mandatory / element bound is malformed and reported.
+func c08EmptyStringCases() []C08Case {
+	var out []C08Case
+	st := func(kind, p, v string) DevStmt {
+		s := NewDevStmt(kind)
+		s.Set(p, v)
+		return s
+	}
+	one := func(combo, text string, stmts []DevStmt) *C08Case {
+		_, arg, target := c08Base("leaf", nil)
+		c := c08One(combo, combo, text, []Deviation{{Module: "dv", Arg: arg, Target: target, Stmts: stmts}}, []string{"dv"}, false)
+		out = append(out, c)
+		return &out[len(out)-1]
+	}
+	for _, t := range []string{"leaf", "leaf-list"} {
+		owns := map[string][][2]string{"none": nil, "empty": {{"default", `""`}}, "d1": {{"default", "d1"}}}
+		for _, own := range []string{"none", "empty", "d1"} {
+			// (a leaf-list gets the given default plus "b")
+			text, _, _ := c08Base(t, owns[own])
+			for _, k := range []string{"add", "replace", "delete"} {
+				for _, v := range []string{"", "d1", "b"} {
+					vn := v
+					if v == "" {
+						vn = "empty"
+					}
+					one(fmt.Sprintf("empty-string/default/%s/own=%s/%s=%s", t, own, k, vn), text, []DevStmt{st(k, "default", v)})
+				}
+			}
+			tag := fmt.Sprintf("empty-string/default/%s/own=%s", t, own)
+			one(tag+"/delete-empty-then-add-empty", text, []DevStmt{st("delete", "default", ""), st("add", "default", "")})
+			one(tag+"/add-empty-then-add-x", text, []DevStmt{st("add", "default", ""), st("add", "default", "x")})
+			one(tag+"/replace-empty-then-delete-empty", text, []DevStmt{st("replace", "default", ""), st("delete", "default", "")})
+			one(tag+"/replace-x-then-replace-empty", text, []DevStmt{st("replace", "default", "x"), st("replace", "default", "")})
+			// together with another property, so that the statement is not empty when the default is dropped
+			s := st("replace", "default", "")
+			s.Set("config", "false")
+			one(tag+"/replace-empty-and-config", text, []DevStmt{s})
+		}
+	}
+	{
+		text, _, _ := c08Base("choice", [][2]string{{"default", "c1"}})
+		one("empty-string/default/choice/own=c1/replace=empty", text, []DevStmt{st("replace", "default", "")})
+		one("empty-string/default/choice/own=c1/delete=empty", text, []DevStmt{st("delete", "default", "")})
+	}
+	// units: an empty argument is no argument
+	for _, t := range []string{"leaf", "leaf-list", "container"} {
+		text, arg, target := c08Base(t, nil)
+		for _, k := range []string{"add", "replace", "delete"} {
+			combo := fmt.Sprintf("empty-string/units/%s/%s", t, k)
+			out = append(out, c08One(combo, combo, text, []Deviation{{Module: "dv", Arg: arg, Target: target,
+				Stmts: []DevStmt{st(k, "units", "")}}}, []string{"dv"}, false))
+		}
+		combo := fmt.Sprintf("empty-string/units/%s/add-u1-then-replace-empty", t)
+		out = append(out, c08One(combo, combo, text, []Deviation{{Module: "dv", Arg: arg, Target: target,
+			Stmts: []DevStmt{st("add", "units", "u1"), st("replace", "units", "")}}}, []string{"dv"}, false))
+	}
+	// malformed values
+	for _, p := range []string{"config", "mandatory", "min-elements", "max-elements"} {
+		for _, k := range []string{"add", "replace", "delete"} {
+			t := "leaf"
+			if strings.HasSuffix(p, "elements") {
+				t = "leaf-list"
+			}
+			text, arg, target := c08Base(t, nil)
+			s := NewDevStmt(k)
+			s.Set(p, `""`)
+			combo := fmt.Sprintf("empty-string/malformed/%s/%s", p, k)
+			c := c08One(combo, combo, text, []Deviation{{Module: "dv", Arg: arg, Target: target, Stmts: []DevStmt{s}}}, []string{"dv"}, false)
+			c.Malformed = true
+			out = append(out, c)
+		}
+	}
+	return out
+}
+
+// c08SubmoduleCases: deviations written in a submodule of the module they deviate, with the
+// belongs-to prefix or without prefix: they take effect in the tree of the module the submodule
+// belongs to (not in a private tree of the submodule), after the deviations of all modules.
+func c08SubmoduleCases() []C08Case {
+	var out []C08Case
+	st := func(kind, p, v string) DevStmt {
+		s := NewDevStmt(kind)
+		s.Set(p, v)
+		return s
+	}
+	bText := "module b {\n  namespace \"urn:b\";\n  prefix b;\n  include b-s1;\n" +
+		"  leaf s0 { type string; default keep; }\n  leaf t { type string; default d1; }\n" +
+		"  container c { leaf x { type string; } list l { key k; leaf k { type string; } min-elements 2; } }\n}\n"
+	sub := func(devs []Deviation) string {
+		var sb strings.Builder
+		sb.WriteString("submodule b-s1 {\n  belongs-to b { prefix pb; }\n  leaf ts { type string; default d1; }\n" +
+			"  container cs { leaf y { type string; } }\n")
+		for _, d := range devs {
+			if d.Module == "b-s1" {
+				render(&sb, d.Node(), "  ")
+			}
+		}
+		sb.WriteString("}\n")
+		return sb.String()
+	}
+	type tg struct{ name, arg, target string }
+	targets := []tg{
+		{"owner-leaf/prefix", "/pb:t", "/b/t"}, {"owner-leaf/no-prefix", "/t", "/b/t"},
+		{"own-leaf/prefix", "/pb:ts", "/b/ts"}, {"own-leaf/no-prefix", "/ts", "/b/ts"},
+		{"owner-nested/prefix", "/pb:c/pb:x", "/b/c/x"}, {"own-nested/no-prefix", "/cs/y", "/b/cs/y"},
+	}
+	stmts := []struct {
+		name string
+		s    []DevStmt
+	}{
+		{"replace-default", []DevStmt{st("replace", "default", "x")}},
+		{"add-units", []DevStmt{st("add", "units", "u1")}},
+		{"add-default", []DevStmt{st("add", "default", "x")}},
+		{"delete-default-d1", []DevStmt{st("delete", "default", "d1")}},
+		{"delete-default-other", []DevStmt{st("delete", "default", "zz")}},
+		{"not-supported", []DevStmt{NewDevStmt("not-supported")}},
+		{"add-config-then-not-supported", []DevStmt{st("add", "config", "false"), NewDevStmt("not-supported")}},
+	}
+	for _, t := range targets {
+		for _, x := range stmts {
+			for _, withMod := range []bool{false, true} {
+				devs := []Deviation{{Module: "b-s1", Sub: true, Arg: t.arg, Target: t.target, TargetMod: "b", Stmts: x.s}}
+				combo := fmt.Sprintf("submodule-deviation/%s/%s", t.name, x.name)
+				c := C08Case{BaseNames: []string{"b.yang", "b-s1.yang"}, BaseTexts: []string{bText, sub(nil)}}
+				if withMod {
+					// a deviating module on the same target as well: it is applied first although "dv" > "b-s1"
+					combo += "/after-module"
+					devs = append([]Deviation{{Module: "dv", Arg: "/b:" + strings.ReplaceAll(strings.TrimPrefix(t.target, "/b/"), "/", "/b:"),
+						Target: t.target, TargetMod: "b", Stmts: []DevStmt{st("replace", "config", "true")}}}, devs...)
+					c.DevMods = []string{"dv"}
+					c.DevNames = []string{"dv.yang"}
+					c.DevTexts = []string{devModuleText("dv", [][2]string{{"b", "b"}}, devs)}
+				}
+				c.Label, c.Combo, c.Devs = combo, combo, devs
+				c.WithBaseTexts = []string{bText, sub(devs)}
+				out = append(out, c)
+			}
+		}
+	}
 	return out
 }
 
@@ -637,6 +821,8 @@ func C08Random(r *rand.Rand) C08Case {
 	type tgt struct {
 		arg, dump, kw, mod string
 		n                  *Node
+		sp                 SchemaPath
+		m                  *Module
 	}
 	var tgts []tgt
 	for _, m := range set.Mods {
@@ -670,7 +856,7 @@ func C08Random(r *rand.Rand) C08Case {
 				}
 				d.WriteString("/" + n)
 			}
-			tgts = append(tgts, tgt{pathString(p.SchemaPath, "i"+m.Name, true), d.String(), p.Kw, full, p.n})
+			tgts = append(tgts, tgt{pathString(p.SchemaPath, "i"+m.Name, true), d.String(), p.Kw, full, p.n, p.SchemaPath, m})
 		}
 	}
 	sort.SliceStable(tgts, func(i, j int) bool { return tgts[i].dump < tgts[j].dump })
@@ -713,6 +899,65 @@ func C08Random(r *rand.Rand) C08Case {
 		c.DevNames = append(c.DevNames, m+".yang")
 		c.DevTexts = append(c.DevTexts, devModuleText(m, imports, c.Devs))
 	}
+	// now and then deviations written in a submodule of the base, naming nodes of the module it belongs
+	// to with the belongs-to prefix or without prefix (applied after the deviations of all modules)
+	if g.chance(0.2) {
+		var cands []tgt
+		for _, t := range tgts {
+			if len(t.m.Includes) > 0 {
+				cands = append(cands, t)
+			}
+		}
+		if len(cands) > 0 {
+			t0 := cands[r.Intn(len(cands))]
+			sub := t0.m.Includes[r.Intn(len(t0.m.Includes))]
+			nd := 1 + r.Intn(2)
+			for i := 0; i < nd; i++ {
+				t := t0
+				if i > 0 || g.chance(0.5) {
+					var same []tgt
+					for _, x := range cands {
+						if x.m == t0.m {
+							same = append(same, x)
+						}
+					}
+					t = same[r.Intn(len(same))]
+					if g.chance(0.4) && len(pool) > 0 && pool[0].m == t0.m {
+						t = pool[0]
+					}
+				}
+				d := Deviation{Module: sub.Name, Sub: true, Target: t.dump, TargetMod: t.mod}
+				if g.chance(0.5) {
+					d.Arg = pathString(t.sp, sub.Prefix, true)
+				} else {
+					// no prefix on any step
+					var sb strings.Builder
+					for j, n := range t.sp.Names {
+						if t.sp.ChoiceShorthand[j] {
+							sb.WriteString("/" + n)
+						}
+						sb.WriteString("/" + n)
+					}
+					d.Arg = sb.String()
+				}
+				ns := 1 + r.Intn(2)
+				for j := 0; j < ns; j++ {
+					s := g.c08Stmt(t.kw, t.n)
+					if s.Type != "-" {
+						// (no reference leaf for replacement types outside the deviating modules)
+						s.Type = "-"
+						if s.Kind != "delete" {
+							s.Units = "u2"
+						}
+					}
+					d.Stmts = append(d.Stmts, s)
+				}
+				c.Devs = append(c.Devs, d)
+				sub.Body.Kids = append(sub.Body.Kids, d.Node())
+			}
+			_, c.WithBaseTexts = set.Files()
+		}
+	}
 	return c
 }
 
@@ -750,13 +995,13 @@ func (g *genr) c08Stmt(kw string, n *Node) DevStmt {
 		case "config", "mandatory":
 			v = g.pick([]string{"true", "false"})
 		case "default":
-			v = g.pick([]string{"d1", "d2", "a", "b"})
+			v = g.pick([]string{"d1", "d2", "a", "b", ""})
 		case "min-elements":
 			v = g.pick([]string{"0", "1", "2"})
 		case "max-elements":
 			v = g.pick([]string{"unbounded", "3", "10"})
 		case "units":
-			v = g.pick([]string{"u1", "u2"})
+			v = g.pick([]string{"u1", "u2", "u1", "u2", ""})
 		case "type":
 			v = g.pick(leafTypes)
 		}
@@ -847,6 +1092,12 @@ func c08AddTypedefDefaults(g *genr, set *Set) {
 						continue
 					}
 					done[k] = true
+					// the empty string as the node's own default now and then
+					for _, t := range k.Kids {
+						if t.Kw == "default" && g.chance(0.15) {
+							t.Arg = ""
+						}
+					}
 					if g.chance(0.35) {
 						for _, t := range k.Kids {
 							if t.Kw == "type" {
